@@ -51,13 +51,62 @@ func infixTable(w *World) (map[string]infixEntry, *infixEntry, error) {
 	if id, ok := ast.Unparen(sw.Tag).(*ast.Ident); !ok || len(fd.Type.Params.List) != 1 || w.Info.Uses[id] != w.Info.Defs[fd.Type.Params.List[0].Names[0]] {
 		return nil, nil, fmt.Errorf("the switch tag is not the operator name parameter")
 	}
-	entryOf := func(body []ast.Stmt) (*infixEntry, error) {
+	constOf := func(val ast.Expr) (int64, bool) {
+		tv := w.Info.Types[val]
+		if tv.Value == nil || tv.Value.Kind() != constant.Int {
+			return 0, false
+		}
+		v, _ := constant.Int64Val(tv.Value)
+		return v, true
+	}
+	var entryOf func(body []ast.Stmt) (*infixEntry, error)
+	// the same table written as assignments to a result variable that is returned after the switch
+	assignForm := func(body []ast.Stmt) (*infixEntry, error) {
+		if len(body) == 0 {
+			return nil, fmt.Errorf("empty case body")
+		}
+		e := &infixEntry{pos: body[0].Pos()}
+		for _, st := range body {
+			as, ok := st.(*ast.AssignStmt)
+			if !ok || len(as.Lhs) != 1 || len(as.Rhs) != 1 || as.Tok != token.ASSIGN {
+				return nil, fmt.Errorf("case body is neither a single return nor assignments to the result")
+			}
+			switch lhs := as.Lhs[0].(type) {
+			case *ast.Ident:
+				if _, isLit := ast.Unparen(as.Rhs[0]).(*ast.CompositeLit); !isLit {
+					return nil, fmt.Errorf("assigned value is not a literal")
+				}
+				sub, err := entryOf([]ast.Stmt{&ast.ReturnStmt{Return: as.Pos(), Results: []ast.Expr{as.Rhs[0]}}})
+				if err != nil {
+					return nil, err
+				}
+				e.prec, e.arity = sub.prec, sub.arity
+			case *ast.SelectorExpr:
+				v, okc := constOf(as.Rhs[0])
+				if !okc {
+					return nil, fmt.Errorf("non-constant field value")
+				}
+				switch lhs.Sel.Name {
+				case "precedence":
+					e.prec = v
+				case "childCount":
+					e.arity = v
+				default:
+					return nil, fmt.Errorf("unknown field %s", lhs.Sel.Name)
+				}
+			default:
+				return nil, fmt.Errorf("unexpected assignment target")
+			}
+		}
+		return e, nil
+	}
+	entryOf = func(body []ast.Stmt) (*infixEntry, error) {
 		if len(body) != 1 {
-			return nil, fmt.Errorf("case body is not a single return")
+			return assignForm(body)
 		}
 		ret, ok := body[0].(*ast.ReturnStmt)
 		if !ok || len(ret.Results) != 1 {
-			return nil, fmt.Errorf("case body is not a single return")
+			return assignForm(body)
 		}
 		cl, ok := ast.Unparen(ret.Results[0]).(*ast.CompositeLit)
 		if !ok {
@@ -262,16 +311,7 @@ func ruleAssoc(w *World, r *Report, funcPrec int64) {
 	if pie == nil {
 		return
 	}
-	var cmp, reduce *ssa.Function
-	for _, an := range pie.AnonFuncs {
-		sig := an.Signature
-		if sig.Params().Len() == 2 && sig.Results().Len() == 1 && typeNameOf(sig.Params().At(0).Type()) == "token" && typeNameOf(sig.Params().At(1).Type()) == "token" {
-			cmp = an
-		}
-		if sig.Params().Len() == 1 && sig.Results().Len() == 1 && typeNameOf(sig.Params().At(0).Type()) == "token" && isErrorType(sig.Results().At(0).Type()) {
-			reduce = an
-		}
-	}
+	cmp, reduce := infixClosures(pie)
 	if cmp == nil || reduce == nil {
 		r.Unresolved(rule, "comparePrecedence / buildTopOperators closures not found")
 		return
@@ -291,10 +331,11 @@ func ruleAssoc(w *World, r *Report, funcPrec int64) {
 		if !okb {
 			return ""
 		}
+		carP, topP := cmpParams(cmp)
 		switch varRoot(mustLoadOf(base)) {
-		case cmp.Params[0]:
+		case carP:
 			return "P(car)"
-		case cmp.Params[1]:
+		case topP:
 			return "P(top)"
 		}
 		return ""
@@ -335,29 +376,8 @@ func ruleAssoc(w *World, r *Report, funcPrec int64) {
 			return
 		}
 		c, okc := bo.X.(*ssa.Call)
-		if !okc || !isDynamicCall(&c.Call) {
+		if !okc || !callsClosure(c, cmp) {
 			return
-		}
-		// callee is the captured comparePrecedence variable
-		addr, okl := isLoad(c.Call.Value)
-		if !okl {
-			return
-		}
-		fv, okv := addr.(*ssa.FreeVar)
-		if !okv || fv.Name() != "comparePrecedence" {
-			// resolve by binding rather than by name
-			cell := resolveCell(addr)
-			found := false
-			if cell != nil {
-				for _, st := range cellStores(cell) {
-					if mc, ok := st.Val.(*ssa.MakeClosure); ok && mc.Fn == cmp {
-						found = true
-					}
-				}
-			}
-			if !found {
-				return
-			}
 		}
 		k, okk := constInt(bo.Y)
 		if !okk {
@@ -375,10 +395,10 @@ func ruleAssoc(w *World, r *Report, funcPrec int64) {
 			return
 		}
 		// args: (car, top.t)
-		argsOK := len(c.Call.Args) == 2 && varRoot(c.Call.Args[0]) == reduce.Params[0]
+		na := len(c.Call.Args)
+		argsOK := na >= 2 && varRoot(c.Call.Args[na-2]) == reduce.Params[0]
 		if argsOK {
-			_, okTop := loadOfField(c.Call.Args[1], "op", "t")
-			argsOK = okTop
+			argsOK = tokenOfStackTop(c.Call.Args[na-1])
 		}
 		leaves := blockReturn(iff.Block().Succs[stopEdge]) != nil || onlyReturnsFrom(iff.Block().Succs[stopEdge])
 		if argsOK && leaves {
@@ -415,6 +435,41 @@ func ruleAssoc(w *World, r *Report, funcPrec int64) {
 			popOrderOK = true
 		}
 	})
+	if !popOrderOK {
+		// the operands taken in one piece: copy(children, outputStack[len-cnt:]) keeps the source order too
+		fns := []*ssa.Function{reduce}
+		EachInstr(reduce, func(in ssa.Instruction) {
+			if c, ok := in.(*ssa.Call); ok && !c.Call.IsInvoke() {
+				if h := c.Call.StaticCallee(); h != nil && len(h.Blocks) > 0 && h.Parent() == reduce.Parent() {
+					fns = append(fns, h)
+				}
+			}
+		})
+		for _, an := range reduce.Parent().AnonFuncs {
+			fns = append(fns, an)
+		}
+		for _, f := range fns {
+			EachInstr(f, func(in ssa.Instruction) {
+				c, ok := in.(*ssa.Call)
+				if !ok {
+					return
+				}
+				b, okb := c.Call.Value.(*ssa.Builtin)
+				if !okb || b.Name() != "copy" {
+					return
+				}
+				dst, okd := c.Call.Args[0].(*ssa.MakeSlice)
+				src, oks := c.Call.Args[1].(*ssa.Slice)
+				if !okd || !oks || src.High != nil || src.Low == nil {
+					return
+				}
+				// Low = len(stack) - cnt with cnt the length of dst
+				if lo, okl := src.Low.(*ssa.BinOp); okl && lo.Op == token.SUB && isLenCall(lo.X) && lo.Y == dst.Len {
+					popOrderOK = true
+				}
+			})
+		}
+	}
 	r.Check(popOrderOK, rule, w.Pos(reduce.Pos()), w.Name(reduce), "children[i] = pop() for i = cnt-1 … 0", "the last pushed operand becomes the last child: source order is kept", "operands are popped into their slots in the wrong direction: operand order is reversed")
 }
 
@@ -488,3 +543,37 @@ var c15Witnesses = append(wave4WitnessesC15, []Witness{
 	{Name: "benign-precedence-renumbered", Benign: true, Edits: []Edit{
 		{File: "parser.go", Old: "		return infixOpInfo{precedence: 8, childCount: 2}", New: "		return infixOpInfo{precedence: 9, childCount: 2}"}}},
 }...)
+
+
+// tokenOfStackTop: v is a token-typed field of a value loaded from a slice element (the top entry of the operator
+// stack), whatever the entry type and its fields are called.
+func tokenOfStackTop(v ssa.Value) bool {
+	if typeNameOf(v.Type()) != "token" {
+		return false
+	}
+	for depth := 0; depth < 6; depth++ {
+		switch x := v.(type) {
+		case *ssa.UnOp:
+			if x.Op != token.MUL {
+				return false
+			}
+			v = x.X
+		case *ssa.FieldAddr:
+			v = x.X
+		case *ssa.Field:
+			v = x.X
+		case *ssa.IndexAddr:
+			return true
+		case *ssa.Alloc:
+			// a local copy of the stack top: its single store comes from a slice element
+			sts := cellStores(x)
+			if len(sts) != 1 {
+				return false
+			}
+			v = sts[0].Val
+		default:
+			return false
+		}
+	}
+	return false
+}
